@@ -150,7 +150,17 @@ func (this *Hnsw) Load(r io.Reader, header bool) error {
 	var distance float32
 
 	uuidBuf := make([]byte, uuid.Size)
-	if _, err := r.Read(uuidBuf); err != nil {
+	if _, err := io.ReadFull(r, uuidBuf); err != nil {
+		if err == io.EOF {
+			// Save writes nothing for an empty index
+			for i, _ := range this.vertices {
+				this.vertices[i] = make(map[uuid.UUID]*hnswVertex)
+			}
+			this.len = 0
+			this.bytesSize = 0
+			atomic.StorePointer(&this.entrypoint, nil)
+			return nil
+		}
 		return err
 	}
 	entrypointId, err := uuid.FromBytes(uuidBuf)
@@ -159,6 +169,7 @@ func (this *Hnsw) Load(r io.Reader, header bool) error {
 	}
 
 	this.len = 0
+	this.bytesSize = 0
 	// Load vertices
 	var shardSize uint32
 	var vertex *hnswVertex
@@ -172,7 +183,7 @@ func (this *Hnsw) Load(r io.Reader, header bool) error {
 		verticesShard := this.vertices[i]
 
 		for i := 0; i < int(shardSize); i++ {
-			if _, err := r.Read(uuidBuf); err != nil {
+			if _, err := io.ReadFull(r, uuidBuf); err != nil {
 				return err
 			}
 			id, err := uuid.FromBytes(uuidBuf)
@@ -206,7 +217,7 @@ func (this *Hnsw) Load(r io.Reader, header bool) error {
 	// Load edges
 	for _, verticesShard := range this.vertices {
 		for i := 0; i < len(verticesShard); i++ {
-			if _, err := r.Read(uuidBuf); err != nil {
+			if _, err := io.ReadFull(r, uuidBuf); err != nil {
 				return err
 			}
 			id, err := uuid.FromBytes(uuidBuf)
@@ -220,7 +231,7 @@ func (this *Hnsw) Load(r io.Reader, header bool) error {
 					return err
 				}
 				for j := 0; j < int(numEdges); j++ {
-					if _, err := r.Read(uuidBuf); err != nil {
+					if _, err := io.ReadFull(r, uuidBuf); err != nil {
 						return err
 					}
 					neighborId, err := uuid.FromBytes(uuidBuf)
